@@ -19,7 +19,10 @@ def classify(kf, rec) -> bool:
     if cl == "first-word-overflows-at-c0":
         # D-11: strict bound fails only because the first word does not fit at c0 > c1
         if "i1" in c:      # paragraph level: line 0 of a paragraph whose first word does not fit beside the longer first-line indent
-            first = (c.get("text", "").split() or [""])[0]
+            try:
+                first = (_impl().get_html_md_word_splitter()(c.get("text", "")) or [""])[0]     # the first word as the splitter sees it (a tag is one word)
+            except Exception:
+                first = (c.get("text", "").split() or [""])[0]
             return "line 0 is" in rec["what"] and len(c["i1"]) > len(c["i2"]) and len(c["i1"]) + len(first) > c["width"]
         ws = c.get("words") or []
         return bool(ws) and c["c0"] > c["c1"] and c["c0"] + len(ws[0]) > c["width"] and rec["what"].startswith("strict-width")
